@@ -531,7 +531,7 @@ func genC10(seed uint64, idx int) *Plan {
 			if (idx/32)%2 == 0 {
 				// many quick repetitions: the cancellation sweeps the return path of
 				// NewConn (a window of a few instructions on another processor)
-				c.Reps = 600
+				c.Reps = 2400
 				c.Buffered, c.Frags, c.LatUs = true, 1, 0
 				c.Spin = []int{2000, 20000, 60000, 150000}[r.IntN(4)]
 			}
